@@ -325,7 +325,6 @@ fn chain_text(n: usize, first: usize, cdda_form: bool) -> String {
 }
 
 pub fn run(ctx: &Ctx, acc: &mut Acc) {
-    let t0 = std::time::Instant::now(); // TEMP
     let alpha = alphabet();
     let depth = if ctx.quick { 5 } else { 6 };
     acc.notes.push(format!("cue-text: {} line templates, depth {}, {} total_samples values, profile {}", alpha.len(), depth, TOTALS.len(), ctx.profile));
@@ -405,10 +404,8 @@ pub fn run(ctx: &Ctx, acc: &mut Acc) {
             }
         }
     }
-    acc.dim(&format!("cue_ms_{}", ctx.profile), t0.elapsed().as_millis() as u64); // TEMP
 }
 
-// TEMP-END
 pub fn replay(v: &Value) -> Option<(bool, String)> {
     match v["kind"].as_str()? {
         "cue-text" => {
